@@ -2,7 +2,7 @@
  * All loops have the constant bound 4: unwound completely (--unwinding-assertions), no loop contract needed. */
 #include "contracts/C20_invert.h"
 int verif_exc;
-Matrix4 g_spec_L, g_spec_R; int g_spec_singular; size_t g_x, g_y;
+Matrix4 g_spec_L, g_spec_R; int g_spec_singular; size_t g_x, g_y; double g_spec_P;
 #include "x_invert.c"
 
 static void setup(Matrix4* m, const uint64_t* bits) {
@@ -25,3 +25,14 @@ void h_inverse(void) {
   Matrix4_inverse(&m);
   VERIF_REACH();
 }
+
+/* product: operands A (in_e*) and B (in_f*); in_alias: the right operand is the left operand itself (M * M, M *= M) */
+static void fill(Matrix4* m, const uint64_t* bits) { for (size_t k = 0; k < 16; k++) { union { double d; uint64_t u; } c; c.u = bits[k]; m->m[k / 4][k % 4] = c.d; } }
+#define IN16F uint64_t in_f0, in_f1, in_f2, in_f3, in_f4, in_f5, in_f6, in_f7, in_f8, in_f9, in_f10, in_f11, in_f12, in_f13, in_f14, in_f15; \
+  uint64_t fbits[16] = { in_f0, in_f1, in_f2, in_f3, in_f4, in_f5, in_f6, in_f7, in_f8, in_f9, in_f10, in_f11, in_f12, in_f13, in_f14, in_f15 }
+#define PRODUCT_SETUP \
+  IN16; IN16F; size_t in_x, in_y; uint8_t in_alias; __CPROVER_assume(in_x < 4 && in_y < 4); g_x = in_x; g_y = in_y; \
+  Matrix4 a, b; fill(&a, bits); fill(&b, fbits); Matrix4* other = in_alias ? &a : &b; \
+  Matrix4 a0 = a, b0 = *other; g_spec_P = SPEC_PROD(&a0, &b0, g_x, g_y); verif_exc = 0;
+void h_mulm(void) { PRODUCT_SETUP Matrix4_mulm(&a, other); VERIF_REACH(); }
+void h_imulm(void) { PRODUCT_SETUP Matrix4_imulm(&a, other); VERIF_REACH(); }
